@@ -243,7 +243,10 @@ static void explore_tree(void)
 		skipped_container_seen = 0;
 		int rr = ref_visit(0);
 		int want = (rr == JSON_C_VISIT_RETURN_CONTINUE || rr == JSON_C_VISIT_RETURN_SKIP || rr == JSON_C_VISIT_RETURN_POP || rr == JSON_C_VISIT_RETURN_STOP) ? 0 : -1;
-		int got = json_c_visit(root, 0, cb, NULL);
+		/* the reserved second argument is documented as unused: whatever is passed, the callbacks see only
+		 * 0 and JSON_C_VISIT_SECOND (the value rotates over the explored vectors) */
+		static const int future[4] = {0, JSON_C_VISIT_SECOND, 1, -1};
+		int got = json_c_visit(root, future[runs & 3], cb, NULL);
 		int same = ng == nr;
 		for (int i = 0; same && i < nr; i++)
 			same = glog[i].node == rlog[i].node && glog[i].second == rlog[i].second;
